@@ -438,7 +438,12 @@ func c06ToReduced(o *cli.Opts, run *evid.Run) {
 					break
 				}
 				fired := 0
-				h := rmon.Hints{rmon.NBitsID: rmon.NBitsWhen(nil, n, func(_ *big.Int, nn int) []*big.Int { return rmon.BitsOf(alt, nn) }, &fired)}
+				h := rmon.Hints{rmon.NBitsID: rmon.NBitsWhen(nil, 0, func(_ *big.Int, nn int) []*big.Int {
+					if nn < alt.BitLen() {
+						return nil
+					}
+					return rmon.BitsOf(alt, nn)
+				}, &fired)}
 				if free.Solve(&ToReducedFree{V: v, Size: n}, h).Accepted {
 					run.Violate(fmt.Sprintf("%s/forged/%d/k=%d", key, i, k), fmt.Sprintf("ToReducedBigEndian over %s accepts the decomposition v+%d*order of 0x%s", name, k, v.Text(16)), map[string]any{"value": "0x" + v.Text(16), "k": k})
 				}
